@@ -259,8 +259,10 @@ class Check:
             pat = k.get("match", "")
             if (k.get("regex") and re.search(pat, key)) or key == pat or \
                     (pat.endswith("*") and key.startswith(pat[:-1])):
+                first = not any(w == k.get("what", what) for _k, w in self.known_hits)
                 self.known_hits.append((key, k.get("what", what)))
-                print("KNOWN-FINDING: property=%s %s [%s]" % (self.pid, k.get("what", what), key))
+                if first:   # one line per listed finding
+                    print("KNOWN-FINDING: property=%s %s [first match: %s]" % (self.pid, k.get("what", what), key))
                 return
         d = os.path.join(VERIF, "replays", self.pid)
         os.makedirs(d, exist_ok=True)
